@@ -144,11 +144,33 @@ def make_vector(cfg):
         maxs = [math.inf] * len(names)
     if "defaults" in omit:
         defaults = [min(max(0.0, a), b) for a, b in zip(mins, maxs)]
-    v = Vector(list(names),
-               None if "defaults" in omit else list(defaults),
-               None if "mins" in omit else list(mins),
-               None if "maxs" in omit else list(maxs),
-               check_bounds=cb, check_hitbounds=chk, accept_nan=nan)
+    cont = cfg[8] if len(cfg) > 8 else "list"
+    if cont == "arrays" and len(names):
+        a_n = np.array(list(names))
+        a_d, a_lo, a_hi = (np.array(list(x), dtype=np.float64)
+                           for x in (defaults, mins, maxs))
+        v = Vector(a_n,
+                   None if "defaults" in omit else a_d,
+                   None if "mins" in omit else a_lo,
+                   None if "maxs" in omit else a_hi,
+                   check_bounds=cb, check_hitbounds=chk, accept_nan=nan)
+        # the caller reuses its buffers for something else
+        a_n[:] = "zz"
+        a_d[:] = 12345.
+        a_lo[:] = -77.
+        a_hi[:] = 99999.
+    elif cont == "tuple" and len(names):
+        v = Vector(tuple(names),
+                   None if "defaults" in omit else tuple(defaults),
+                   None if "mins" in omit else tuple(mins),
+                   None if "maxs" in omit else tuple(maxs),
+                   check_bounds=cb, check_hitbounds=chk, accept_nan=nan)
+    else:
+        v = Vector(list(names),
+                   None if "defaults" in omit else list(defaults),
+                   None if "mins" in omit else list(mins),
+                   None if "maxs" in omit else list(maxs),
+                   check_bounds=cb, check_hitbounds=chk, accept_nan=nan)
     return v, Model(names, defaults, mins, maxs, chk, nan, cb)
 
 
@@ -368,7 +390,11 @@ def config(draw):
                                  ["mins"], ["maxs"], ["defaults", "mins"],
                                  ["defaults", "maxs"],
                                  ["defaults", "mins", "maxs"]]))
-    return [names, defaults, mins, maxs, chk, nan, cb, omit]
+    # the constructor arguments given as lists, or as numpy arrays / a tuple
+    # that the caller overwrites straight after the construction
+    cont = draw(st.sampled_from(["list", "list", "arrays", "arrays",
+                                 "tuple"]))
+    return [names, defaults, mins, maxs, chk, nan, cb, omit, cont]
 
 
 @st.composite
